@@ -10,6 +10,11 @@ package main
 //   (race ID structs VARIANT NG none (ops (u V)|(rt V) ...))
 //       struct-mapped user objects nested three levels deep (root -> mid -> leaf, non-pointer fields,
 //       defaults on the innermost), the sub-objects given, partly given or omitted.
+//   (race ID xstruct fresh NG XSCHEMA (ops (u V)|(v V)|(s V)|(c V) ...))
+//       GENERATED struct-mapped schemas from the shared generator of xstruct_gen.go in its `rich` mode: non-pointer
+//       sub-objects by value and by reference, two and three levels deep (a plain object in the middle), member
+//       properties with defaults, object-typed properties that declare a full / PARTIAL / empty object default of
+//       their own; the first operations omit every member (the sub-object default propagation runs on first use).
 //   (race ID schema fresh|rebuilt NG SCOPE (ops ... (cs) ...))
 //       (cs): ANOTHER instance's ValidateCompatibility with the shared scope as its ARGUMENT — a read-only
 //       use of the shared schema by a third party — while the other goroutines use that scope.
@@ -158,6 +163,18 @@ func runRaceTrial2(id string, p *sx.Node) *sx.Node {
 		}
 		shared := c13StructScope(variant)
 		return c13Race(id, ng, len(ops), want, func(i int) string { return c13StructOp(shared, ops[i]) })
+	case "xstruct":
+		ng, desc := int(p.List[4].Int()), p.List[5]
+		ops := p.List[6].List[1:]
+		want := make([][]string, len(ops))
+		for rep := 0; rep < c13IsoReps; rep++ {
+			iso := buildSchema(desc)
+			for i, op := range ops {
+				want[i] = append(want[i], c13SchemaOp(iso, nil, op))
+			}
+		}
+		shared := buildSchema(desc)
+		return c13Race(id, ng, len(ops), want, func(i int) string { return c13SchemaOp(shared, nil, ops[i]) })
 	case "errs":
 		ng, desc := int(p.List[4].Int()), p.List[5]
 		ops := p.List[6].List[1:]
@@ -206,6 +223,54 @@ func c13GenStructs(r *Rng, id *sx.Node, ng int) *sx.Node {
 		ops.Append(op(pick(r, []string{"u", "rt"}), pick(r, c13StructInputs)))
 	}
 	return sx.L(sx.A("race"), id, sx.A("structs"), sx.A(pick(r, c13StructVariants)), sx.I(int64(ng)), none(), ops)
+}
+
+// c13GenXStruct: a struct-mapped schema of the shared generator (rich mode), bare or as the root of a scope whose
+// members are referenced; no recursive member (D52 is C04's).
+func c13GenXStruct(r *Rng, id *sx.Node, ng int) *sx.Node {
+	g := &xgen{r: r, rich: true, scope: r.Chance(40)}
+	name := pick(r, []string{"XNested", "XNested", "XDeep", "XMid", "XMid", "XLoose", "XColl"})
+	ptr := r.Chance(25)
+	root := g.object("Root", ptr, name)
+	s := root
+	if g.scope {
+		sub := &xgen{r: r, rich: true}
+		xi := sub.innerObj(false)
+		xi.List[1] = sx.S("XI")
+		a := dObject("A", false, propD{name: "x", t: dInt(nil, nil, nil)}, propD{name: "v", t: dInt(nil, nil, nil), dflt: sp("4")})
+		s = dScope("Root", root, xi, a)
+	}
+	annotateX(s)
+	er := eraseX(s)
+	sc := scopeCtx{}
+	if er.Head() == "scope" {
+		sc = scopeTable(er)
+	}
+	ops := sx.L(sx.A("ops"))
+	// every member omitted: at least twice, first
+	ops.Append(op("u", vM(tAnyMap)), op("u", vM(tStrMap)))
+	for j := 0; j < 2+r.Intn(3); j++ {
+		v := rawFor(r, er, sc, 3)
+		ops.Append(op("u", v))
+		if r.Chance(30) {
+			ops.Append(op("c", v))
+		}
+	}
+	xn := &xnat{r: r, sc: scopeCtx{}}
+	if s.Head() == "scope" {
+		xn.sc = scopeTable(s)
+	}
+	rootN := xn.resolve(s)
+	t := structTypes[name]
+	v := xn.valFor(t, rootN, 2)
+	var nat any = v.Interface()
+	if ptr {
+		pv := reflect.New(t)
+		pv.Elem().Set(v)
+		nat = pv.Interface()
+	}
+	ops.Append(op("v", valSx(nat)), op("s", valSx(nat)))
+	return sx.L(sx.A("race"), id, sx.A("xstruct"), sx.A("fresh"), sx.I(int64(ng)), s, ops)
 }
 
 // c13GenErrs: a scope with ONE fault site 1-3 objects deep (inline objects or references) and inputs that are
